@@ -1,6 +1,6 @@
 (* C06 — concrete witnesses over the reals for the behaviour before the repairs (findings FC06b, FC06c). *)
 From Coq Require Import List Reals Lra Lia Bool Arith.
-From AV Require Import lib.Num model.C06_Model proofs.C06_Lists proofs.C06_Proofs.
+From AV Require Import lib.Num model.C06_Model proofs.C06_Lists proofs.C06_Proofs proofs.C06_PTF.
 Import ListNotations.
 Local Open Scope R_scope.
 
@@ -19,10 +19,13 @@ Ltac rcmp :=
 Ltac runfold :=
   cbv beta delta [validate load evaluate interp_phase resolve_mass masses fls uniq_sorted subset
                   required_masses coverage_ok fl_only_ok pair_eqb key sel node_val node_val1 lin bil
-                  list_min list_max nmin nmax Nat.ltb];
+                  list_min list_max nmin nmax Nat.ltb ptf_shape bada_ptf wf_ptf nonempty];
   cbn [fold_right insert_u map r_fl r_mass r_tas r_rocd r_ff forallb filter in_phase
        dedup_pairs mem_pair fst snd length Nat.eqb Nat.leb Nat.mul Nat.add negb andb orb
-       sw_set sw_sort bracket find rev app combine fold_left];
+       sw_set sw_sort bracket find rev app combine fold_left distinct existsb
+       p_low p_nom p_high p_climb p_cruise p_descent pc_fl pc_tas pc_lo pc_nom pc_hi pc_ff
+       pr_fl pr_tas pr_lo pr_nom pr_hi pd_fl pd_tas pd_rocd pd_ff];
+  change (@zero RNum) with 0; change (@mul RNum) with Rmult;
   change (@tol RNum) with (1 / 1000000);
   change (@nabs RNum) with Rabs; change (@opp RNum) with Ropp;
   change (@ltb RNum) with Rltb; change (@leb RNum) with Rleb; change (@eqb RNum) with Reqb.
@@ -148,3 +151,24 @@ Proof.
   unfold evaluate. rewrite (w_ok_phases_valid Cruise), (w_ok_phases_valid Descent), w_ok_cruise, w_ok_descent.
   unfold swF. repeat split; rcompute; try reflexivity. f_equal; rnum; field.
 Qed.
+
+(* ---- FC06d: a PTF content as BADA writes it (0 fpm for the high mass at a level that also has a cruise row) ---- *)
+Definition w_ptf0 : ptf RNum :=
+  @mkPTF RNum 1 2 3 [ @mkPC RNum 0 4 2 1 0 9 ] [ @mkPR RNum 0 5 1 2 3 ] [ @mkPD RNum 0 4 1 1 ].
+
+Lemma w_ptf0_is_bada : @bada_ptf RNum w_ptf0 = true.
+Proof. unfold w_ptf0. rcompute. reflexivity. Qed.
+
+Lemma ptf_zero_climb_rate_refuted :
+  exists P : ptf RNum, @bada_ptf RNum P = true /\ exists e, @load RNum swF (@build_table RNum 1 1 1 P) = Some e.
+Proof.
+  exists w_ptf0. split; [apply w_ptf0_is_bada|].
+  apply (ptf_zero_climb_rate_refused 1 1 1 w_ptf0 (@mkPC RNum 0 4 2 1 0 9) (@mkPR RNum 0 5 1 2 3)); cbn; auto.
+  pose proof tol_pos. rnum. lra.
+Qed.
+
+(* a well-formed one (non-vacuity of wf_ptf) *)
+Definition w_ptf1 : ptf RNum :=
+  @mkPTF RNum 1 2 3 [ @mkPC RNum 0 4 3 2 1 9 ; @mkPC RNum 1 5 3 2 1 8 ] [ @mkPR RNum 1 5 1 2 3 ] [ @mkPD RNum 0 4 1 1 ].
+Lemma w_ptf1_wf : @wf_ptf RNum 1 w_ptf1 = true.
+Proof. unfold w_ptf1. rcompute. reflexivity. Qed.
